@@ -307,6 +307,68 @@ theorem hex_and_signed_literals :
     blobBytes true "2.5" = some 1 ∧ blobBytes true "0x8000000000000000" = none ∧
     blobLenOfArgs (.cons (.other "UnaryExpr:-" (.cons (.lit "number" "5") .nil)) .nil) = some 1 := by decide
 
+/-! ### hexadecimal literals, in general (R6 follow-up: not only the listed literals) -/
+/-- the int64 that SQLite reads a hexadecimal literal of value `u < 2^64` as -/
+def hexInt64 (u : Nat) : Int :=
+  if u ≥ 9223372036854775808 then (u : Int) - 18446744073709551616 else (u : Int)
+
+/-- the rule for `0x…` literals, stated on the VALUE of the digits -/
+def hexRule (neg : Bool) : Option Nat → Option Nat
+  | none => none
+  | some u =>
+    if u ≥ 18446744073709551616 then none
+    else if neg && hexInt64 u == -9223372036854775808 then none
+    else bytesOf (if neg then -(hexInt64 u) else hexInt64 u)
+
+def digStep (acc : Option Nat) (ch : Char) : Option Nat := do
+  let a ← acc
+  if '0' ≤ ch ∧ ch ≤ '9' then pure (a * 10 + (ch.toNat - '0'.toNat)) else none
+
+theorem digitsVal_eq (cs : List Char) : digitsVal cs = cs.foldl digStep (some 0) := rfl
+
+theorem digStep_foldl_none (cs : List Char) : cs.foldl digStep none = none := by
+  induction cs with
+  | nil => rfl
+  | cons c cs ih => simpa [digStep] using ih
+
+theorem digitsVal_0x (x : Char) (hx : x = 'x' ∨ x = 'X') (hs : List Char) :
+    digitsVal ('0' :: x :: hs) = none := by
+  rw [digitsVal_eq]
+  simp only [List.foldl_cons]
+  have : digStep (digStep (some 0) '0') x = none := by
+    rcases hx with rfl | rfl <;> decide
+  rw [this, digStep_foldl_none]
+
+/-- EVERY hexadecimal literal (any digits, any length, either case of the prefix) is read by the
+rule on its value: no digits or a non-hex digit → left alone; value ≥ 2^64 → left alone (SQLite
+rejects it); otherwise the two's-complement int64, negated under a minus sign (except
+`-0x8000000000000000`, which SQLite rejects), clamped as randomblob clamps it. -/
+theorem hex_literal_general (neg : Bool) (x : Char) (hx : x = 'x' ∨ x = 'X') (hs : List Char) :
+    blobBytes neg (String.ofList ('0' :: x :: hs)) = hexRule neg (parseHex hs) := by
+  unfold blobBytes
+  simp only [String.toList_ofList, digitsVal_0x x hx hs, List.isEmpty_cons, Bool.false_eq_true, if_false]
+  rcases hx with rfl | rfl <;>
+  · simp only []
+    unfold hexRule hexInt64
+    cases parseHex hs with
+    | none => rfl
+    | some u => rfl
+
+/-- the value read is the two's-complement interpretation of the low 64 bits -/
+theorem hexInt64_is_twos_complement (u : Nat) (h : u < 18446744073709551616) :
+    hexInt64 u = (BitVec.ofNat 64 u).toInt := by
+  unfold hexInt64
+  rw [BitVec.toInt_eq_toNat_cond]
+  simp only [BitVec.toNat_ofNat]
+  have : u % 2 ^ 64 = u := Nat.mod_eq_of_lt (by omega)
+  rw [this]
+  split <;> split <;> omega
+
+/-- non-vacuity: the general rule at concrete literals, through the general theorem -/
+example : blobBytes false (String.ofList ('0' :: 'x' :: ['F', 'f'])) = some 255 ∧
+    blobBytes true (String.ofList ('0' :: 'X' :: ['1', 'g'])) = none := by
+  rw [hex_literal_general false 'x' (Or.inl rfl), hex_literal_general true 'X' (Or.inr rfl)]; decide
+
 /-! ### nothing else changes -/
 
 /-- The rewritten statement differs from the original ONLY by the replacements the property asks
